@@ -2,14 +2,15 @@
    the copy denotes the source's value, resized - is C16_copy_value_* in Properties_C16.v.)
    Statements only. *)
 From CV Require Import Core.Builder Core.Reader Core.ReaderFacts Core.BuilderFacts Core.HeapProofs Core.BuildOps Core.BuildValid
-  Core.HeapInv Core.HeapOps Core.HeapCopy Core.HeapCopySrc Core.HeapSteps Core.HeapHistory.
+  Core.HeapInv Core.HeapOps Core.HeapCopy Core.HeapCopySrc Core.HeapSteps Core.HeapValid Core.HeapHistory.
+Require Import ZArith List. Import ListNotations.
 Open Scope Z_scope.
 
-(* inside one message (forced copies: SetPtr of a list member, SetStruct, CopyFrom, forceCopy in
-   copyStruct): the copy consists of table entries that did not exist before (C05_copy_all extends
-   the tables), whose regions are disjoint from every older object; so a later write inside an
-   older object - the source or anything else - leaves the copy byte for byte unchanged, and a
-   later write inside the copy leaves every older object unchanged *)
+(* inside one message, part 1: byte-level independence.  WHAT THIS THEOREM IS: a frame property of
+   the table invariant, for ANY split of the object table into an older part objs and a newer
+   part eo: a write inside an entry of one part leaves every entry of the other part byte for byte
+   unchanged.  It does not mention write_ptr; part 2 (C16_forced_copy_fresh, below) supplies the
+   split for a copying writePtr and says where the slot points. *)
 Theorem C16_copy_independent : forall m objs eo pads m' R j,
   hinv m (objs ++ eo) pads -> keeps m m' R -> (j < length (regsO (objs ++ eo)))%nat ->
   inside (nth j (regsO (objs ++ eo)) root_reg) R ->
@@ -40,3 +41,34 @@ Theorem C16_copy_unchanged_by_source_setter : forall w (F : bmsg -> res bmsg) w'
   set_in w InSrc F = Ok w' -> w_dst w' = w_dst w.
 Proof. exact src_setter_dst. Qed.
 Print Assumptions C16_copy_unchanged_by_source_setter.
+
+(* inside one message, part 2: a copying writePtr is not shallow.  Whenever writePtr copies -
+   forceCopy (set by copyStruct for every pointer it copies: SetStruct, CopyFrom and everything
+   below them) or a list-member source - and the source is a non-empty struct or a list, the
+   object table grows by at least one entry h, the copy: h starts at the old end of its segment
+   (position 0 of a segment that did not exist), the invariant for objs ++ h :: eo makes it
+   disjoint from every older object, the source included, and the slot written resolves
+   (resolve_ptr: through the landing pads) to exactly h.  The theorem is about one writePtr call;
+   copyStruct calls writePtr with forceCopy for every pointer of the source, so it applies to every
+   pointer slot of the copy, at every depth.  NOT stated as one theorem: the closure "every slot
+   reachable from the copy designates an entry of eo" (it needs the induction of C05_copy_all
+   restated with this conclusion); empty structs are encoded inline and capabilities are table
+   indices: nothing to copy. *)
+Theorem C16_forced_copy_fresh : forall f w objs pads q src fc w',
+  tinv w objs pads -> In q ((0, 0) :: flat_map slots objs) -> view objs src ->
+  p_valid src = true -> p_kind src <> KIface -> (p_kind src = KStruct -> os_isZero (p_size src) = false) ->
+  fc || p_member src = true ->
+  write_ptr (S f) true w (fst q) (snd q) InDst src fc = Ok w' -> nsegs (w_dst w') < B32 ->
+  exists h eo ep, tinv w' (objs ++ h :: eo) (pads ++ ep) /\
+    obj_start h = zlen (mem (w_dst w) (p_seg h)) /\
+    exists pads', resolve_ptr (bm_data (w_dst w')) (fst q) (snd q) = (tgt_of h, pads' ++ [obj_reg h]).
+Proof. exact forced_copy_fresh. Qed.
+Print Assumptions C16_forced_copy_fresh.
+
+(* one program, evaluated: CopyFrom inside one message copies the child too (new child at 48, the
+   old one stays at 24), and later writes to either child do not show in the other *)
+Example C16_forced_copy_is_deep_example :
+  sub_prog ex3_ops = true /\
+  map bval_summary (brun ex2_env ex2_st0 ex3_ops) = [8; 24; 0; 0; 0; 32; 0; 48; 24; 0; 7; 9; 0; 5; 9].
+Proof. exact forced_copy_is_deep_example. Qed.
+Print Assumptions C16_forced_copy_is_deep_example.
